@@ -38,6 +38,13 @@ def SamePartition [DecidableEq α] [DecidableEq β] (a : List α) (b : List β) 
 instance [DecidableEq α] [DecidableEq β] (a : List α) (b : List β) : Decidable (SamePartition a b) := by
   unfold SamePartition; infer_instance
 
+/-- `SamePartition` evaluated with constant-time indexing (quadratic instead of cubic on lists); equivalent to
+    `decide (SamePartition a b)`: `samePartitionB_iff` in `SkNet/Lemmas/ClusteringCanon.lean` -/
+def samePartitionB [DecidableEq α] [DecidableEq β] (a : List α) (b : List β) : Bool :=
+  a.length == b.length &&
+  (List.range a.length).all fun i => (List.range a.length).all fun j =>
+    decide (a.toArray[i]? = a.toArray[j]?) == decide (b.toArray[i]? = b.toArray[j]?)
+
 /-- `labels` uses exactly the labels `0..k-1`, with non-increasing sizes when `sorted` -/
 def ValidK (labels : List Nat) (k : Nat) (sorted : Bool) : Prop :=
   Contiguous labels k ∧ (sorted = true → SizesNonInc labels k)
